@@ -49,7 +49,7 @@ def clean(prop):
 
 def run(module, cfg_text, wd, name=None, dump=False, simulate=None, depth=None, workers=None,
         timeout=600, seed=None, coverage=True, env=None, deadlock=False, heap='4g', stack='256m',
-        dfs=False):
+        dfs=False, gen=None):
     """Run TLC on spec/<module>.tla with the given configuration text."""
     name = name or module
     cfg = os.path.join(wd, name + '.cfg')
@@ -57,7 +57,15 @@ def run(module, cfg_text, wd, name=None, dump=False, simulate=None, depth=None, 
         f.write(cfg_text)
     meta = os.path.join(wd, name + '.meta')
     shutil.rmtree(meta, ignore_errors=True)
+    cwd = SPEC
     cmd = ['timeout', str(timeout), 'java', '-XX:+UseParallelGC', '-Xss' + stack, '-Xmx' + heap]
+    if gen:
+        # generated wrapper modules (constants too rich for a .cfg) live in the work directory
+        for mname, text in gen.items():
+            with open(os.path.join(wd, mname + '.tla'), 'w') as f:
+                f.write(text)
+        cwd = wd
+        cmd.append('-DTLA-Library=' + SPEC)
     if dfs:
         cmd.append('-Dtlc2.tool.queue.IStateQueue=StateDeque')
     cmd += ['-cp', JARS, 'tlc2.TLC', '-config', cfg, '-metadir', meta, '-noGenerateSpecTE']
@@ -89,7 +97,7 @@ def run(module, cfg_text, wd, name=None, dump=False, simulate=None, depth=None, 
     if env:
         e.update(env)
     t0 = time.time()
-    p = subprocess.run(cmd, cwd=SPEC, env=e, stdout=subprocess.PIPE, stderr=subprocess.STDOUT, text=True)
+    p = subprocess.run(cmd, cwd=cwd, env=e, stdout=subprocess.PIPE, stderr=subprocess.STDOUT, text=True)
     res.wall = time.time() - t0
     out = p.stdout
     res.output = out
